@@ -95,7 +95,7 @@ def run_workers(pid, cases, jobs, scratch, case_timeout, total_timeout):
     return results, problems
 
 
-def decide(pid, prop, cases, results, problems, tier, seed, wall, out_dir):
+def decide(pid, prop, cases, results, problems, tier, seed, wall, out_dir, replay=False):
     known = [
         k for k in util.load_known_findings() if k["property"] == pid
     ]
@@ -138,7 +138,7 @@ def decide(pid, prop, cases, results, problems, tier, seed, wall, out_dir):
         inconcl.append(f"{len(missing)} cases produced no result")
 
     # minimum evaluations per clause: a deciding monitor that never ran is inconclusive
-    mins = getattr(prop, "MIN", {}).get(tier, {})
+    mins = getattr(prop, "MIN", {}).get(tier, {}) if not replay else {}
     for c, n in mins.items():
         if clauses.get(c, 0) < n:
             inconcl.append(f"clause {c} evaluated {clauses.get(c, 0)} < {n} times")
@@ -249,8 +249,10 @@ def main(argv=None):
         results, problems = run_workers(pid, cases, jobs, scratch, ct, tt)
         wall = time.time() - t0
         out_dir = os.path.join(util.VERIF, "out")
+        if util.REPO != "/repo":
+            out_dir = os.path.join(out_dir, "scratch-" + os.path.basename(util.REPO.rstrip("/")))
         ev, lines, code, inconcl = decide(
-            pid, prop, cases, results, problems, tier, seed, wall, out_dir
+            pid, prop, cases, results, problems, tier, seed, wall, out_dir, replay=bool(args.replay)
         )
         if not args.replay and not args.no_evidence and util.REPO == "/repo":
             os.makedirs(os.path.join(util.VERIF, "evidence"), exist_ok=True)
